@@ -316,6 +316,9 @@ class Ctx:
         bad = hygiene()
         self.obligation("hygiene-grep", not bad, "hygiene", "; ".join(bad[:5]))
         ok, out = regenerate()
+        scoped = [ln for ln in out.splitlines() if ln.startswith(f"TRANSLATOR-FAIL[{self.pid}]")]      # a shape this property's model depends on has changed
+        if ok and scoped:
+            ok, out = False, "\n".join(scoped)
         self.obligation("translator(gen_all.py)", ok, "translator", out[-600:] if not ok else "")
         if not ok:
             self.log("translator failed:\n" + out[-1500:])
